@@ -467,7 +467,12 @@ def _eval_new_ctx(
         if ProcessingStage.PATH_COMMIT in stages:
             _logger.debug(f"Starting stage {ProcessingStage.PATH_COMMIT}")
             t = _time()
-            _store().sync_paths(store_paths)
+            # A keep that the analysis found but that was not reached (a branch not taken, an exception that its
+            # caller caught) has produced no blob: its path goes on serving what it served.
+            committable = OrderedDict(
+                (p_, k_) for (p_, k_) in store_paths.items() if _store().has_blob(k_)
+            )
+            _store().sync_paths(committable)
             _add_delta(t, ProcessingStage.PATH_COMMIT)
             _logger.debug(f"Stage {ProcessingStage.PATH_COMMIT} done")
         else:
